@@ -19,6 +19,10 @@ CLAIMED = {
              ref='DESIGN.md section 4 C03'),
  'C08': dict(text='betweenness_wei / edge_betweenness_wei with every cell a symbolic length >= 0: each explored path is one support + tie structure (the routines fork on Duw < D[w] / Duw == D[w]) valid for all length assignments realising it; node and edge values are compared exactly (rationals) with a brute-force count over enumerated simple paths whose "is shortest" questions the solver decides under the path condition; binary routines per labelled graph incl. the sum identities; edge routines\' node vector equals the node routines\'.',
              ref='DESIGN.md section 4 C08'),
+ 'C09': dict(text='All nine clustering / transitivity routines on every labelled graph of the bound (bits forked), with the cube roots c_ij in (0,1] of the weights symbolic (the routine receives c^3) and, for the signed variant, the sign pattern forked: C[u] x denominator = triple-sum numerator (polynomial identities settled by normal form or z3), exactly 0 for nodes with fewer than two neighbours or no triangle, [0,1] for the binary routines, transitivity = triangle/triple ratio.',
+             ref='DESIGN.md section 4 C09'),
+ 'C10': dict(text='Relational checks inside one exploration: weighted vs binary routine on every 0/1 graph of the bound (plus 6-node families for the path-counting pairs), directed vs undirected routine on symmetric input with symbolic cube-root weights, and weight-ignoring routines on symbolic positive weights vs the binarised matrix; outputs compared element-wise (z3 / polynomial normal form).',
+             ref='DESIGN.md section 4 C10'),
  'C12': dict(text='distance_wei_floyd on a fully symbolic length matrix (support, lengths, ties; one path thanks to masked views) followed by retrieve_shortest_path(s, t): start, end, every hop along an existing connection, hop count = hops[s,t], summed length = SPL[s,t], empty iff unreachable, for all three transforms; navigation_wu with symbolic lengths and symbolic nodal distances: every stored walk, the three path-length matrices, failure = infinite in all three, success ratio.',
              ref='DESIGN.md section 4 C12'),
  'C15': dict(text='kcore_bu / kcore_bd / score_wu run on symbolic adjacency bits (all graphs of the size in one exploration), symbolic k (Int) / s and weights (Real); z3 proves membership-meets-bound, output = input restricted to the core, reported size, maximality against all 2^n node subsets, and nestedness for k and k+1; peel lists and k-coreness are checked per labelled graph (bits forked) against an independent peeling.',
